@@ -1,6 +1,7 @@
 import SnootyVerif.Drv.Util
 import SnootyVerif.Model.EventWalk
 import SnootyVerif.Model.Handlers
+import SnootyVerif.Model.TitleInject
 import SnootyVerif.Gen.Handlers
 open Lean
 namespace SnootyVerif.Drv.C02
@@ -31,6 +32,25 @@ def scan (j : Json) : Except String Json := do
   | .ok b => pure (Json.mkObj [("ok", Json.bool b)])
   | .error _ => pure (Json.mkObj [("exc", "IndexError")])
 
-def ops : List (String × (Json → Except String Json)) := [("c02.walk", walk), ("c02.scan", scan)]
+/-! title injection: node = ["t", text] | ["w", [kids]] | ["r", target, [kids]] -/
+partial def parseN (j : Json) : Except String TitleInject.N := do
+  let a ← j.getArr?
+  match a.toList with
+  | [.str "t", .str s] => pure (.text s)
+  | [.str "w", .arr ks] => pure (.wrap (← ks.toList.mapM parseN))
+  | [.str "r", .str t, .arr ks] => pure (.ref t (← ks.toList.mapM parseN))
+  | _ => throw "bad title node"
+
+partial def putN : TitleInject.N → Json
+  | .text s => Json.arr #["t", Json.str s]
+  | .wrap cs => Json.arr #["w", Json.arr (cs.map putN).toArray]
+  | .ref t cs => Json.arr #["r", Json.str t, Json.arr (cs.map putN).toArray]
+
+/-- request {own, nodes} → `without_ref_roles(nodes, own)` -/
+def stripOp (j : Json) : Except String Json := do
+  let ns ← (← arr j "nodes").toList.mapM parseN
+  pure (Json.mkObj [("nodes", Json.arr ((TitleInject.stripL (← str j "own") ns).map putN).toArray)])
+
+def ops : List (String × (Json → Except String Json)) := [("c02.walk", walk), ("c02.scan", scan), ("c02.strip", stripOp)]
 
 end SnootyVerif.Drv.C02
